@@ -10,6 +10,7 @@ import (
 	"encoding/json"
 	"flag"
 	"fmt"
+	"hash/fnv"
 	"os"
 	"path/filepath"
 	"runtime"
@@ -60,7 +61,7 @@ type Def struct {
 	Exec       func(c *Ctx, cs Case) []Rec
 	Rule       string
 	Exhaustive bool
-	Nontrivial func(r Rec) bool // nil: every record counts
+	Nontrivial func(r Rec) bool   // nil: every record counts
 	Key        func(r Rec) string // distinctness key; nil: JSON of the case + kind
 	Extra      func(recs []Rec) map[string]any
 }
@@ -178,19 +179,79 @@ func (c *Ctx) quick() bool { return c.Tier != "thorough" }
 // confirmed the watchdog is shortened, so that a tree with a hang is reported in minutes instead of timing the check out.
 var hangs atomic.Int64
 
-func (c *Ctx) crd(args []string, stdin []byte) run.Result {
-	if hangs.Load() >= 3 {
-		return run.Run(c.Bin, run.Cmd{Args: args, Stdin: stdin, Timeout: 1500 * time.Millisecond})
+// how standard input reaches crd is rotated by a hash of the request (so a request always travels the same way): mostly a
+// pipe fed at once, one run in eight redirected from a regular file (`< file`), one in eight a slow pipe
+func stdinModeFor(args []string, stdin []byte) string {
+	if len(stdin) == 0 || len(stdin) > 1<<16 {
+		return ""
 	}
-	r := run.Run(c.Bin, run.Cmd{Args: args, Stdin: stdin, Timeout: 10 * time.Second})
+	h := fnv.New32a()
+	for _, a := range args {
+		h.Write([]byte(a))
+		h.Write([]byte{0})
+	}
+	h.Write(stdin)
+	switch h.Sum32() % 8 {
+	case 0:
+		return "file"
+	case 1:
+		return "slow"
+	}
+	return ""
+}
+
+func (c *Ctx) crd(args []string, stdin []byte) run.Result {
+	mode := stdinModeFor(args, stdin)
+	if hangs.Load() >= 3 {
+		return run.Run(c.Bin, run.Cmd{Args: args, Stdin: stdin, StdinMode: mode, Timeout: 1500 * time.Millisecond})
+	}
+	r := run.Run(c.Bin, run.Cmd{Args: args, Stdin: stdin, StdinMode: mode, Timeout: 10 * time.Second})
 	if r.TimedOut {
 		// confirm alone-ish with a long watchdog before anybody calls it a hang (a loaded machine is not a hang)
-		r = run.Run(c.Bin, run.Cmd{Args: args, Stdin: stdin, Timeout: 40 * time.Second})
+		r = run.Run(c.Bin, run.Cmd{Args: args, Stdin: stdin, StdinMode: mode, Timeout: 40 * time.Second})
 		if r.TimedOut {
 			hangs.Add(1)
 		}
 	}
 	return r
+}
+
+// crdVia feeds `input` to a command that takes [FILE] or stdin by the route `via`: "" (stdin pipe), "redir" (`< file`),
+// "dash" (`-`), "file" (a regular FILE), "devstdin" (FILE = /dev/stdin on a pipe), "fifo" (FILE = a named pipe)
+func (c *Ctx) crdVia(args []string, input []byte, via string) run.Result {
+	cmd := run.Cmd{Args: append([]string{}, args...), Timeout: 20 * time.Second}
+	switch via {
+	case "redir":
+		cmd.Stdin, cmd.StdinMode = input, "file"
+	case "dash":
+		cmd.Stdin, cmd.Args = input, append(cmd.Args, "-")
+	case "file":
+		f := c.writeTemp(fmt.Sprintf("via%d", nextID()), string(input))
+		defer os.Remove(f)
+		cmd.Args = append(cmd.Args, f)
+	case "devstdin":
+		cmd.Stdin, cmd.Args = input, append(cmd.Args, "/dev/stdin")
+	case "fifo":
+		f := c.writeTemp(fmt.Sprintf("viafifo%d", nextID()), "")
+		os.Remove(f)
+		cmd.Fifos = map[string][]byte{f: input}
+		cmd.Args = append(cmd.Args, f)
+	default:
+		cmd.Stdin = input
+	}
+	return run.Run(c.Bin, cmd)
+}
+
+var viaRoutes = []string{"redir", "dash", "file", "devstdin", "fifo"}
+
+// viaFor picks a route from a hash of the input: 5 in 16 requests leave the plain pipe
+func viaFor(input string) string {
+	h := fnv.New32a()
+	h.Write([]byte(input))
+	if k := int(h.Sum32() % 16); k < len(viaRoutes) {
+		return viaRoutes[k]
+	}
+	return ""
 }
 
 func (c *Ctx) crdEnv(args []string, stdin []byte, env []string, to time.Duration) run.Result {
